@@ -667,6 +667,10 @@ def run_tree(check, supp, stats, spec, quick, tree_no):
                             stats['out_of_domain']['relative:gap'] = stats['out_of_domain'].get('relative:gap', 0) + 1
                     elif rel.startswith('.'):
                         stats['distinct'].add((tree_no, canon_path(fn, base), rel))
+                # ---- the same files reached through a SYMLINKED package directory: the package of a file is where it is
+                # imported from (its path), not where the link points (oracle only: the Fs model has no links)
+                if rels:
+                    symlink_stage(check, env, base, stats, tree_desc, [(fn, rel) for (fn, rel), r in zip(rels, a_norm) if r['clean']])
                 # ---- get_nmodule
                 for (fn, nm), r in zip(ngets, a_nget):
                     stats['evaluations'] += 1
@@ -707,6 +711,44 @@ def run_tree(check, supp, stats, spec, quick, tree_no):
         shutil.rmtree(base, ignore_errors=True)
         for k in [k for k in sys.path_importer_cache if k == base or k.startswith(base + '/')]:
             del sys.path_importer_cache[k]
+
+
+def symlink_stage(check, env, base, stats, tree_desc, clean_rels):
+    done = 0
+    seen_dirs = set()
+    for fn, rel in clean_rels:
+        d = os.path.dirname(fn)
+        if d in seen_dirs or not os.path.exists(os.path.join(d, '__init__.py')) or os.path.dirname(d) == base:
+            continue
+        seen_dirs.add(d)
+        link = os.path.join(os.path.dirname(d), 'zqlnk')
+        if os.path.lexists(link):
+            continue
+        try:
+            os.symlink(os.path.basename(d), link)        # relative link to the sibling directory
+        except OSError:
+            return
+        try:
+            for fn2, rel2 in clean_rels:
+                if os.path.dirname(fn2) != d:
+                    continue
+                alias = os.path.join(link, os.path.basename(fn2))
+                s = env.norm_package(rel2, alias)
+                pkg = file_package(alias)
+                o = oracle_resolve(rel2, pkg)
+                stats['evaluations'] += 1
+                stats['symlink_queries'] = stats.get('symlink_queries', 0) + 1
+                if s != o:
+                    check.fail('norm_package(%r, %s) = %r but resolve_name(%r, %r) = %r (file reached through a symlinked package directory)'
+                               % (rel2, canon_path(alias, base), s, rel2, pkg, o),
+                               {'kind': 'relative-symlink', 'tree': tree_desc, 'link': canon_path(link, base)[len(T) + 1:],
+                                'target': os.path.basename(d), 'file': canon_path(alias, base)[len(T) + 1:], 'rel': rel2,
+                                'supp': s, 'importlib': o, 'package': pkg})
+        finally:
+            os.unlink(link)
+        done += 1
+        if done >= 2:
+            break
 
 
 def assist_root(supp, line):
@@ -880,7 +922,7 @@ def run(check):
                          'that agreed with resolve_name, distinct list/assist queries with at least one enumerable child')
     check.extra.update({
         'trees': len(specs), 'hypotheses_true_of': stats['hyp'], 'get_module_outcomes': stats['outcomes'],
-        'norm_package_outcomes': stats['rel_outcomes'], 'out_of_domain_disagreements_with_importlib (observations, not failures)': stats['out_of_domain'],
+        'norm_package_outcomes': stats['rel_outcomes'], 'norm_package_through_symlinked_package_dirs': stats.get('symlink_queries', 0), 'out_of_domain_disagreements_with_importlib (observations, not failures)': stats['out_of_domain'],
         'in_domain_names_agreeing_with_importlib': stats['in_domain_agree'], 'split_package_hits': stats['split_seen'],
         'extension_next_to_source_hits': stats['ext_seen'],
         'extension_next_to_source_hits_with_NoExtensionNextToSource_false': stats['ext_noext_flag_false'],
@@ -975,7 +1017,9 @@ def replay(path):
                     s = env.assist(rep['line'], os.path.join(base, rep['file']))
                     ok = s == {'ok': []}
                     print('assist(%r) in %s = %r -> %s' % (rep['line'], rep['file'], s, 'agree' if ok else 'DISAGREE'))
-                elif rep['kind'] == 'relative':
+                elif rep['kind'] in ('relative', 'relative-symlink'):
+                    if rep['kind'] == 'relative-symlink':
+                        os.symlink(rep['target'], os.path.join(base, rep['link']))
                     fn = os.path.join(base, rep['file'])
                     s, o = env.norm_package(rep['rel'], fn), oracle_resolve(rep['rel'], file_package(fn))
                     ok = s == o
